@@ -18,10 +18,10 @@ import inspect
 import os
 import sys
 from fractions import Fraction
-from .sorts import (Int, Real, Float, Bool, Str, CSet, Ballot, Profile, Seq, Opt, Dict, Tup, Obj, NoneS, Fn, StateRef)  # noqa: F401
+from .sorts import (Int, Real, Float, Bool, Str, CSet, Ballot, Profile, Seq, Opt, Dict, Tup, Obj, NoneS, Fn, StateRef, TBDictS)  # noqa: F401
 
 __all__ = ["contract", "spec", "REGISTRY", "Int", "Real", "Float", "Bool", "Str", "CSet", "Ballot", "Profile", "Seq",
-           "Opt", "Dict", "Tup", "Obj", "NoneS", "Fn", "StateRef", "implies", "Fraction", "lemma", "floor", "div", "dsum", "reversed_seq"]
+           "Opt", "Dict", "Tup", "Obj", "NoneS", "Fn", "StateRef", "TBDictS", "implies", "Fraction", "lemma", "floor", "div", "dsum", "reversed_seq", "tb_value"]
 
 
 def implies(a, b):
@@ -31,6 +31,12 @@ def implies(a, b):
 def floor(x):
     import math
     return math.floor(x)
+
+
+def tb_value(state):
+    """the resolution recorded in a state's tiebreak record (the record has at most one entry)"""
+    vals = list(state.tiebreaks.values())
+    return vals[0] if vals else ()
 
 
 def reversed_seq(x):
@@ -182,6 +188,27 @@ class Registry:
             return None  # frame-only contracts say nothing about the result: the callee is inlined
         return i
 
+    def lookup_fn(self, rel, qual, args):
+        """contract of a module-level function; variants `when=(kinds...)` are matched on the leading actual arguments"""
+        from . import sorts as S
+        kinds = []
+        for a in args:
+            if isinstance(a, S.VStr):
+                kinds.append("Str")
+            elif isinstance(a, S.VRec):
+                kinds.append(a.cls)
+            elif isinstance(a, (S.VSeq, S.VTup, S.VPyList)):
+                kinds.append("Seq")
+            elif isinstance(a, S.VNum):
+                kinds.append("Num")
+            else:
+                kinds.append("?")
+        for n in range(len(kinds), 0, -1):
+            i = self.contracts.get((rel, qual + "#" + ",".join(kinds[:n])))
+            if i is not None:
+                return i
+        return self.contracts.get((rel, qual))
+
     def class_node(self, clsname):
         """find a repo class by name (searching the elections / models modules)"""
         from .core import module_ast, SRC
@@ -235,8 +262,12 @@ REGISTRY = Registry()
 def contract(relpath, qualname, props=(), **opts):
     def deco(cls):
         info = ContractInfo(cls, relpath, qualname, props, opts)
+        when = opts.get("when")
         recv = opts.get("receiver")
-        if recv:
+        if when:
+            # variant of a polymorphic function, selected by the kinds of its leading actual arguments
+            REGISTRY.contracts[(relpath, qualname + "#" + ",".join(when))] = info
+        elif recv:
             # specialisation of a base-class method contract for the listed receiver classes
             for r in recv:
                 REGISTRY.contracts[(relpath, qualname + "@" + r)] = info
